@@ -585,6 +585,22 @@ func cfgDest(e structs.ConfigEntry) bool {
 }
 
 // Dump renders the snapshot exactly like CV.Engine.C07.dump.
+// XDump: the two tables of stage 2 (gateway-services, mesh-topology), compared with CV.Store.GwX through the
+// separate `xdump` line (emitted only when the stream is enabled, see gwStream in main.go).
+func (s *Snap) XDump() string {
+	t := &s.T
+	parts := []string{
+		"gw=" + mapList(t.Gateway, func(g *structs.GatewayService) string {
+			return fmt.Sprintf("%s;%s;%s;%d;%s;%s;%s;%d;%d", hx.EncS(g.Gateway.Name), hx.EncS(g.Service.Name), kindName(g.GatewayKind), g.Port,
+				hx.EncS(g.Protocol), hx.EncBool(g.FromWildcard), hx.EncS(string(g.ServiceKind)), g.CreateIndex, g.ModifyIndex)
+		}),
+		"topo=" + mapList(t.Topology, func(r state.VerifC07Topology) string {
+			return fmt.Sprintf("%s;%s;%s;%d;%d", hx.EncS(r.Upstream.Name), hx.EncS(r.Downstream.Name), hx.EncS(strings.Join(r.Refs, ",")), r.CreateIndex, r.ModifyIndex)
+		}),
+	}
+	return strings.Join(parts, " ")
+}
+
 func (s *Snap) Dump() string {
 	t := &s.T
 	var idx []*state.IndexEntry
